@@ -33,7 +33,11 @@ func writerObs(g XZCfg, run XZRun, s ref.XZStream) map[string]any {
 func C02(c *hx.Ctx) {
 	c.Rule = "the case space of C01 with a different seed stream; every emitted stream is parsed and decoded by the independent reference (and xz-utils when installed), its layout is judged by TLC against XzFormat.WriterStreamOk (whose block-split formula is a checked lemma of the code-shaped XzWriter life cycle), the call history with per-call results and the parsed block list is validated as a trace (TraceXzWriter); (header/footer/index/backward/padding/check consistency, dictionary code, block sizes, distances <= declared dictionary, chunk limits); non-trivial = multi-block or multi-chunk stream; plus TLC validation (TraceLzma) of the operations of sampled emitted blocks with the window bounded by the declared dictionary size"
 	c.Assumptions = []string{"TLC (XzObs/XzFormat)", "internal/ref parser+decoder (independent of /repo)", "xz-utils only as an optional second judge"}
-	c.DesignCheck(tlc.Opts{Module: "XzWriter", Cfg: "XzWriter_mc.cfg", Timeout: 3 * time.Minute}, []string{"BeginWrite", "WriteAfterClose", "Fill", "Roll", "NewBlk", "BeginClose", "CloseAfterClose", "Index", "Footer"})
+	xzwCfg := "XzWriter_mc.cfg"
+	if c.Thorough() {
+		xzwCfg = "XzWriter_full.cfg"
+	}
+	c.DesignCheck(tlc.Opts{Module: "XzWriter", Cfg: xzwCfg, Timeout: 3 * time.Minute}, []string{"BeginWrite", "WriteAfterClose", "Fill", "Roll", "NewBlk", "BeginClose", "CloseAfterClose", "Index", "Footer"})
 	cases := xzCases(c, c.Seed+7777)
 	if len(cases) == 0 {
 		return
